@@ -2,6 +2,7 @@
 # usage: seedbatch.sh   — verifies every new seeded change under /tmp/seed/<id>/out/<n> (not yet in /verif/seeded), keeps it with an automatic result text
 cd /verif
 for d in /tmp/seed/C??/out/*/; do
+  [ -n "${ONLY:-}" ] && ! echo " $ONLY " | grep -q " $(echo $d | cut -d/ -f4) " && continue   # ONLY="C08 C11": leave the others (seeders still at work) alone
   ID=$(echo $d | cut -d/ -f4); N=$(basename $d)
   [ -d /verif/seeded/$ID-$N ] && continue
   [ -f $d/meta.json ] && [ -f $d/patch.diff ] && [ -f $d/demo_test.go ] || continue
